@@ -375,7 +375,7 @@ def linkOpts (o : FileOptions) : FileOptions := { withFilePerm o 0o777 0o120000 
 def rawOpts (src : FileData) : FileOptions :=
   { method := src.method, level := none, time := src.time, permissions := src.unixMode,
     largeFile := (if src.compressedSize ≥ src.uncompressedSize then src.compressedSize
-                  else src.uncompressedSize) > ZIP64_BYTES_THR,
+                  else src.uncompressedSize) ≥ ZIP64_BYTES_THR,
     encryptWith := none }
 def rawVals (src : FileData) : Option (UInt32 × UInt64 × UInt64) :=
   some (src.crc32, src.compressedSize, src.uncompressedSize)
